@@ -331,8 +331,10 @@ func TestC06Sub(t *testing.T) {
 				err error
 			}
 			ch := make(chan rr, 1)
+			before := fixture.CountGoroutines("protocol/sub.(*context).RecvMsg")
 			go func() { b, err := c.c.Recv(); ch <- rr{b, err} }()
-			time.Sleep(5 * time.Millisecond)
+			// wait until the Recv is really waiting inside the library
+			fixture.WaitGoroutines(before+1, time.Second, "protocol/sub.(*context).RecvMsg")
 			switch change {
 			case "unsubscribe":
 				i := rapid.IntRange(0, len(c.subs)-1).Draw(t, "which")
